@@ -287,8 +287,8 @@ pub fn other_samples() -> Vec<Sample> {
         *n += 1;
     };
     for m in [
-        rw::ExecuteMsg::UpdateConfig { hub_contract: None, reward_denom: None, swap_contract: None },
-        rw::ExecuteMsg::UpdateConfig { hub_contract: Some(STRANGER.into()), reward_denom: Some("evil".into()), swap_contract: None },
+        crate::setup::mk::<rw::ExecuteMsg>(serde_json::json!({"update_config": {}})),
+        crate::setup::mk::<rw::ExecuteMsg>(serde_json::json!({"update_config": {"hub_contract": STRANGER, "reward_denom": "evil"}})),
         rw::ExecuteMsg::SwapToRewardDenom {},
         rw::ExecuteMsg::SetOwner { new_owner_addr: STRANGER.into() },
         rw::ExecuteMsg::AcceptOwnership {},
@@ -305,8 +305,8 @@ pub fn other_samples() -> Vec<Sample> {
     }
     for m in [
         dm::ExecuteMsg::SwapToRewardDenom { bsei_total_bonded: Uint128::new(10), stsei_total_bonded: Uint128::new(10) },
-        dm::ExecuteMsg::UpdateConfig { hub_contract: None, bsei_reward_contract: None, stsei_reward_denom: None, bsei_reward_denom: None, krp_keeper_address: None, krp_keeper_rate: None },
-        dm::ExecuteMsg::UpdateConfig { hub_contract: Some(STRANGER.into()), bsei_reward_contract: Some(STRANGER.into()), stsei_reward_denom: None, bsei_reward_denom: None, krp_keeper_address: Some(STRANGER.into()), krp_keeper_rate: Some(Decimal::one()) },
+        crate::setup::mk::<dm::ExecuteMsg>(serde_json::json!({"update_config": {}})),
+        crate::setup::mk::<dm::ExecuteMsg>(serde_json::json!({"update_config": {"hub_contract": STRANGER, "bsei_reward_contract": STRANGER, "krp_keeper_address": STRANGER, "krp_keeper_rate": "1"}})),
         dm::ExecuteMsg::SetOwner { new_owner_addr: STRANGER.into() },
         dm::ExecuteMsg::AcceptOwnership {},
         dm::ExecuteMsg::DispatchRewards {},
@@ -322,8 +322,8 @@ pub fn other_samples() -> Vec<Sample> {
         crate::setup::mk::<rm::ExecuteMsg>(serde_json::json!({"add_validator": {"validator": {"address": "valx"}}})),
         rm::ExecuteMsg::RemoveValidator { address: "val1".into() },
         rm::ExecuteMsg::RemoveValidator { address: "nosuchvalidator".into() },
-        rm::ExecuteMsg::UpdateConfig { hub_contract: None },
-        rm::ExecuteMsg::UpdateConfig { hub_contract: Some(STRANGER.into()) },
+        crate::setup::mk::<rm::ExecuteMsg>(serde_json::json!({"update_config": {}})),
+        crate::setup::mk::<rm::ExecuteMsg>(serde_json::json!({"update_config": {"hub_contract": STRANGER}})),
         rm::ExecuteMsg::Redelegations { address: "val9".into() },
         rm::ExecuteMsg::SetOwner { new_owner_addr: STRANGER.into() },
         rm::ExecuteMsg::AcceptOwnership {},
@@ -1262,7 +1262,7 @@ fn c20_world(seed: u64, index: u64, _thorough: bool) -> HistoryReport {
                 }
                 let mask = (hc.is_some() as u32) | (br.is_some() as u32) << 1 | (sd.is_some() as u32) << 2 | (bd.is_some() as u32) << 3 | (ka.is_some() as u32) << 4 | (kr.is_some() as u32) << 5;
                 out.count("c20.dispatcher_config_updates");
-                (DISPATCHER, "dispatcher.UpdateConfig", bin(&dm::ExecuteMsg::UpdateConfig { hub_contract: hc, bsei_reward_contract: br, stsei_reward_denom: sd, bsei_reward_denom: bd, krp_keeper_address: ka, krp_keeper_rate: kr }), mask, ex)
+                (DISPATCHER, "dispatcher.UpdateConfig", Binary::from(serde_json::json!({"update_config": {"hub_contract": hc, "bsei_reward_contract": br, "stsei_reward_denom": sd, "bsei_reward_denom": bd, "krp_keeper_address": ka, "krp_keeper_rate": kr}}).to_string().into_bytes()), mask, ex)
             }
             8 => {
                 let mut ex = rc.clone();
@@ -1304,7 +1304,7 @@ fn c20_world(seed: u64, index: u64, _thorough: bool) -> HistoryReport {
                     ex.reward.swap_contract = x.to_lowercase();
                 }
                 let mask = (hc.is_some() as u32) | (rd.is_some() as u32) << 1 | (sc.is_some() as u32) << 2;
-                (REWARD, "reward.UpdateConfig", bin(&rw::ExecuteMsg::UpdateConfig { hub_contract: hc, reward_denom: rd, swap_contract: sc }), mask, ex)
+                (REWARD, "reward.UpdateConfig", Binary::from(serde_json::json!({"update_config": {"hub_contract": hc, "reward_denom": rd, "swap_contract": sc}}).to_string().into_bytes()), mask, ex)
             }
             10 => {
                 let hc = opt(&mut r, odd_addr);
@@ -1312,7 +1312,7 @@ fn c20_world(seed: u64, index: u64, _thorough: bool) -> HistoryReport {
                 if let Some(x) = &hc {
                     ex.registry_hub = x.to_lowercase();
                 }
-                (REGISTRY, "registry.UpdateConfig", bin(&rm::ExecuteMsg::UpdateConfig { hub_contract: hc.clone() }), hc.is_some() as u32, ex)
+                (REGISTRY, "registry.UpdateConfig", Binary::from(serde_json::json!({"update_config": {"hub_contract": hc.clone()}}).to_string().into_bytes()), hc.is_some() as u32, ex)
             }
             _ => {
                 // ownership hand-over of a random contract (keeps the sequences honest about who the owner is)
